@@ -66,6 +66,205 @@ def _table_rows(table, ntargets):
     return rows
 
 
+def _const_container(e):
+    return all(isinstance(n, (ast.Dict, ast.Tuple, ast.List, ast.Constant, ast.BinOp, ast.UnaryOp, ast.operator, ast.unaryop, ast.expr_context))
+               for n in ast.walk(e))
+
+
+def _module_dict(name, module, fn):
+    if module is None or name not in module.assigns or name in _assigned_names([fn]):
+        return None
+    d = module.assigns[name]
+    if isinstance(d, ast.Dict) and _const_container(d) and all(k is not None for k in d.keys):
+        return d
+    return None
+
+
+def _dict_rows(it, ntargets, module, fn):
+    """rows for `for k in D`, `for k in D.keys()`, `for v in D.values()`, `for k, v in D.items()` with D a module-level constant dict."""
+    how = 'keys'
+    base = it
+    if isinstance(it, ast.Call) and isinstance(it.func, ast.Attribute) and it.func.attr in ('keys', 'values', 'items') and not it.args:
+        how = it.func.attr
+        base = it.func.value
+    if not isinstance(base, ast.Name):
+        return None
+    d = _module_dict(base.id, module, fn)
+    if d is None:
+        return None
+    if how == 'keys' and ntargets == 1:
+        return [[k] for k in d.keys]
+    if how == 'values' and ntargets == 1:
+        return [[v] for v in d.values]
+    if how == 'items' and ntargets == 2:
+        return [[k, v] for k, v in zip(d.keys, d.values)]
+    return None
+
+
+class _Fold(ast.NodeTransformer):
+    """Constant folding that unrolling makes possible: comparisons and conditional expressions on constants, lookups of constant
+    keys in module-level constant dicts / tuples."""
+
+    def __init__(self, module, fn):
+        self.module = module
+        self.fn = fn
+        self.changed = False
+
+    def visit_Compare(self, n):
+        self.generic_visit(n)
+        if len(n.ops) == 1 and isinstance(n.left, ast.Constant) and isinstance(n.comparators[0], ast.Constant) \
+                and isinstance(n.ops[0], (ast.Eq, ast.NotEq, ast.In, ast.NotIn)):
+            a, b = n.left.value, n.comparators[0].value
+            try:
+                v = {ast.Eq: a == b, ast.NotEq: a != b}.get(type(n.ops[0]))
+                if v is None:
+                    v = (a in b) if isinstance(n.ops[0], ast.In) else (a not in b)
+            except TypeError:
+                return n
+            self.changed = True
+            return ast.copy_location(ast.Constant(value=bool(v)), n)
+        return n
+
+    def visit_IfExp(self, n):
+        self.generic_visit(n)
+        if isinstance(n.test, ast.Constant):
+            self.changed = True
+            return n.body if n.test.value else n.orelse
+        return n
+
+    def visit_Subscript(self, n):
+        self.generic_visit(n)
+        if isinstance(n.ctx, ast.Load) and isinstance(n.value, ast.Name) and isinstance(n.slice, ast.Constant):
+            d = _module_dict(n.value.id, self.module, self.fn)
+            if d is not None:
+                for k, v in zip(d.keys, d.values):
+                    if isinstance(k, ast.Constant) and k.value == n.slice.value and type(k.value) is type(n.slice.value):
+                        self.changed = True
+                        return ast.copy_location(clone(v), n)
+        return n
+
+
+def _split_tuple_assign(stmts):
+    out = []
+    changed = False
+    for st in stmts:
+        for fld in ('body', 'orelse', 'finalbody'):
+            v = getattr(st, fld, None)
+            if isinstance(v, list) and v and isinstance(v[0], ast.stmt) and not isinstance(st, (ast.FunctionDef, ast.ClassDef)):
+                nv, ch = _split_tuple_assign(v)
+                setattr(st, fld, nv)
+                changed |= ch
+        if isinstance(st, ast.Assign) and len(st.targets) == 1 and isinstance(st.targets[0], (ast.Tuple, ast.List)) \
+                and isinstance(st.value, (ast.Tuple, ast.List)) and len(st.targets[0].elts) == len(st.value.elts) \
+                and all(isinstance(t, ast.Name) for t in st.targets[0].elts) and all(_pure(e) for e in st.value.elts) \
+                and not ({t.id for t in st.targets[0].elts} & {x.id for e in st.value.elts for x in ast.walk(e) if isinstance(x, ast.Name)}):
+            for t, e in zip(st.targets[0].elts, st.value.elts):
+                out.append(ast.copy_location(ast.Assign(targets=[t], value=e), st))
+            changed = True
+        else:
+            out.append(st)
+    return out, changed
+
+
+def _scalarise_local_dicts(fn):
+    """A local dict that is only ever created as a literal with constant keys (or empty) and subscripted with constant keys is a
+    record of variables: D['k'] is read as the name D__k."""
+    cands = {}
+    for st in walk_local(fn):
+        if isinstance(st, ast.Assign) and len(st.targets) == 1 and isinstance(st.targets[0], ast.Name):
+            v = st.value
+            lit = isinstance(v, ast.Dict) and all(isinstance(k, ast.Constant) and isinstance(k.value, str) for k in v.keys)
+            empty = isinstance(v, ast.Call) and isinstance(v.func, ast.Name) and v.func.id == 'dict' and not v.args and not v.keywords
+            if lit or empty:
+                cands.setdefault(st.targets[0].id, []).append(st)
+    params = {a.arg for a in fn.args.posonlyargs + fn.args.args + fn.args.kwonlyargs}
+    ok = {}
+    for name, defs in cands.items():
+        if len(defs) != 1 or name in params:
+            continue
+        good = True
+        for n in ast.walk(fn):
+            if isinstance(n, ast.Name) and n.id == name and n is not defs[0].targets[0]:
+                par = getattr(n, '_parent', None)
+                if not (isinstance(par, ast.Subscript) and par.value is n and isinstance(par.slice, ast.Constant) and isinstance(par.slice.value, str)):
+                    good = False
+                    break
+        if good:
+            ok[name] = defs[0]
+    if not ok:
+        return False
+
+    class R(ast.NodeTransformer):
+        def visit_Subscript(self, n):
+            self.generic_visit(n)
+            if isinstance(n.value, ast.Name) and n.value.id in ok and isinstance(n.slice, ast.Constant):
+                return ast.copy_location(ast.Name(id='%s__%s' % (n.value.id, n.slice.value), ctx=n.ctx), n)
+            return n
+
+    def rewrite(stmts):
+        out = []
+        for st in stmts:
+            if any(st is d for d in ok.values()):
+                name = st.targets[0].id
+                if isinstance(st.value, ast.Dict):
+                    for k, v in zip(st.value.keys, st.value.values):
+                        out.append(ast.copy_location(ast.Assign(targets=[ast.Name(id='%s__%s' % (name, k.value), ctx=ast.Store())], value=v), st))
+                continue
+            for fld in ('body', 'orelse', 'finalbody'):
+                v = getattr(st, fld, None)
+                if isinstance(v, list) and v and isinstance(v[0], ast.stmt) and not isinstance(st, (ast.FunctionDef, ast.ClassDef)):
+                    setattr(st, fld, rewrite(v) or [ast.Pass()])
+            for h in getattr(st, 'handlers', []) or []:
+                h.body = rewrite(h.body) or [ast.Pass()]
+            out.append(st)
+        return out
+    link_parents(fn)
+    fn.body = rewrite(fn.body)
+    R().visit(fn)
+    # copy propagation for the fields just created: D__k = <name> with neither side assigned again reads as <name>
+    stores = {}
+    for n in ast.walk(fn):
+        if isinstance(n, ast.Name) and isinstance(n.ctx, (ast.Store, ast.Del)):
+            stores[n.id] = stores.get(n.id, 0) + 1
+    params_ = {a.arg for a in fn.args.posonlyargs + fn.args.args + fn.args.kwonlyargs}
+    copies = {}
+    for st in fn.body:
+        if isinstance(st, ast.Assign) and len(st.targets) == 1 and isinstance(st.targets[0], ast.Name) and '__' in st.targets[0].id \
+                and st.targets[0].id.split('__')[0] in ok and isinstance(st.value, ast.Name) and stores.get(st.targets[0].id) == 1:
+            src_name = st.value.id
+            later = [x for x in ast.walk(fn) if isinstance(x, ast.Name) and x.id == src_name and isinstance(x.ctx, (ast.Store, ast.Del))
+                     and getattr(x, 'lineno', 0) >= st.lineno]
+            if not later:
+                copies[st.targets[0].id] = (src_name, st)
+    if copies:
+        class C(ast.NodeTransformer):
+            def visit_Name(self, n):
+                if n.id in copies and isinstance(n.ctx, ast.Load):
+                    return ast.copy_location(ast.Name(id=copies[n.id][0], ctx=ast.Load()), n)
+                return n
+        C().visit(fn)
+        drop = {id(v[1]) for v in copies.values()}
+        fn.body = [st for st in fn.body if id(st) not in drop]
+    return True
+
+
+def partial_eval(fn, module):
+    """After unrolling: fold what became constant, split literal tuple assignments, scalarise dict-of-variables.  In place."""
+    link_parents(fn)
+    n = 0
+    for _ in range(4):
+        f = _Fold(module, fn)
+        f.visit(fn)
+        fn.body, ch = _split_tuple_assign(fn.body)
+        link_parents(fn)
+        sc = _scalarise_local_dicts(fn)
+        link_parents(fn)
+        if not (f.changed or ch or sc):
+            break
+        n += 1
+    return n
+
+
 def unroll_table_loops(fn_node, module=None, max_rows=64):
     """Returns (new function node, number of loops unrolled)."""
     fn = clone(fn_node)
@@ -98,6 +297,9 @@ def unroll_table_loops(fn_node, module=None, max_rows=64):
             return None
         table = st.iter
         between = []
+        drows = _dict_rows(st.iter, len(targets), module, fn)
+        if drows is not None:
+            table = ast.Tuple(elts=[(r[0] if len(r) == 1 else ast.Tuple(elts=list(r), ctx=ast.Load())) for r in drows], ctx=ast.Load())
         if isinstance(table, ast.Name):
             # single binding in this statement list before the loop ...
             found = None
@@ -121,6 +323,8 @@ def unroll_table_loops(fn_node, module=None, max_rows=64):
                 return None
             table = found
         rows = _table_rows(table, len(targets))
+        if rows is None:
+            rows = _dict_rows(st.iter, len(targets), module, fn)
         if rows is None or len(rows) > max_rows:
             return None
         for n in ast.walk(st):
@@ -144,6 +348,8 @@ def unroll_table_loops(fn_node, module=None, max_rows=64):
         return new
 
     fn.body = process(fn.body)
+    if count[0]:
+        partial_eval(fn, module)
     ast.fix_missing_locations(fn)
     link_parents(fn)
     return fn, count[0]
